@@ -61,7 +61,7 @@ def run_common(R, prop, what, technique):
     R.audit()
     if R.tier == "thorough" and hasattr(R, "coqchk"):
         R.coqchk()
-    n = 300 if R.tier == "quick" else 4000
+    n = 300 if R.tier == "quick" else 2000
     obs = observe(R, prop, n)
     total, ops = 0, 0
     if obs:
